@@ -205,6 +205,10 @@ func runC13(c *sim.Ctx) *sim.Violation {
 	// mechanism A so that lazily initialised state (a memo table filled on first
 	// use) is still cold when the goroutines first touch it.
 	N := 2 + t.Int(7)
+	faultClass := t.Int(4)
+	if faultClass >= 2 {
+		c.Count(fmt.Sprintf("fault.concurrent-ReadPacket-on-damaged-streams(class %d)", faultClass))
+	}
 	lists := make([][]c13Op, N)
 	streams := make([][]byte, N)
 	plans := make([]*link.Plan, N)
@@ -220,7 +224,33 @@ func runC13(c *sim.Ctx) *sim.Violation {
 		}
 		cfg := specCfg(c)
 		cfg.NoHuge = true
-		streams[g], _ = ref.Encode(gen.Packet(t, cfg))
+		var sfm []ref.Field
+		streams[g], sfm = ref.Encode(gen.Packet(t, cfg))
+		// What the goroutines read from their own streams is not always valid: per run
+		// one fault class applies to ALL streams (the same error path is then taken
+		// concurrently in several goroutines): none, a tape-drawn fault plan each, or
+		// an over-long variable byte integer inside the body of each.
+		switch faultClass {
+		case 2:
+			other, _ := ref.Encode(gen.Packet(t, cfg))
+			if d, _ := gen.Damage(t, streams[g], sfm, other, false); len(d) >= 2 {
+				streams[g] = d
+			}
+		case 3:
+			var vs []ref.Field
+			for _, f := range sfm {
+				if f.Kind == "varint" {
+					vs = append(vs, f)
+				}
+			}
+			if len(vs) > 0 {
+				f := vs[t.Int(len(vs))]
+				val, _, _ := ref.ParseVarint(streams[g][f.Start:f.End])
+				long := fiveByte(val)[t.Int(4)]
+				d := append(append(append([]byte{}, streams[g][:f.Start]...), long...), streams[g][f.End:]...)
+				streams[g] = gen.FixRL(d)
+			}
+		}
 		var segs []int
 		for j := 0; j < 4; j++ {
 			segs = append(segs, 1+t.Int(8))
